@@ -8,7 +8,7 @@ from harness.core import LaneBase
 
 class Lane(LaneBase):
     PROP = 'C03'
-    THEOREMS = ['CG.failed_stepRef_unchanged']
+    THEOREMS = 'auto'
     AUDIT = 'CG/Audit/C03.lean'
     RULE = ('random histories of single-element mutators (no bulk adders) on both classes, about one third aimed at '
             'an error path; the full observable snapshot (nodes, variable types, metadata, edges, types, stored '
